@@ -81,7 +81,6 @@ func notifications(t []pevent) []pevent {
 	return out
 }
 
-
 // ---- declared lifecycle (stage ids and NextStages) from the provider's LifecycleStage literals ----
 
 type stageDecl struct {
